@@ -59,6 +59,18 @@ def judge(m, r, graph, trace, c, unique, ctx):
         out.append(("NT", ""))
     for msg in msgs:
         out.append((None, msg))
+    # "the last observation that received an emitting state" / "the whole trace was matched" are facts about the
+    # lattice, not only about the returned path: the index must be the last column that holds a live emitting candidate
+    if isinstance(r, tuple) and len(r) == 2 and not msgs and r[0] and m.lattice:
+        live_cols = [i for i, col in m.lattice.items() if i < len(trace) and any(not e.stop for e in col.values(0))]
+        if live_cols:
+            # columns are filled left to right: the matched prefix is the run of live columns starting at 0
+            L = 0
+            while L + 1 in live_cols:
+                L += 1
+            if r[1] != L:
+                out.append((None, f"returned index {r[1]}, but live emitting candidates exist for observations 0..{L} "
+                                  f"(trace length {len(trace)})"))
     # empty <=> no admissible start candidate (only meaningful for a run that (re)creates the start nodes)
     if isinstance(r, tuple) and len(r) == 2 and not msgs and not ctx["expand"]:
         model = Model(graph, c)
